@@ -91,7 +91,7 @@ def run_family(prop, tier, propfile, components, oracle, n_quick, n_thorough, ru
                nontrivial=None, trusted_extra=(), assumptions=(), post=None, gen_targets=None):
   ck = Check(prop, tier)
   ck.prove(propfile, gen_targets=gen_targets or GEN_TARGETS, extra=['harness/RunSearch.vo'])
-  n = n_quick if tier == 'quick' else n_thorough
+  n = common.sz(tier, n_quick, n_thorough)
   base = ck.seed * 100003 + int(prop[1:]) * 1009
   jobs = [(base + i, tier, degenerate_every and i % degenerate_every == 0, want, None) for i in range(n)]
   results = common.pmap(corpus_worker, [(c, want) for c in corpus_cases(prop)]) if corpus_cases(prop) else []
